@@ -464,6 +464,12 @@ class Expander:
             else:
                 flags.add(a)
         props = [p for p in opt.get("props", "").split(",") if p]
+        if "when" in opt:
+            # when=alloc / when=!alloc: the whole group only exists in configurations with / without that feature
+            w = opt["when"]
+            if (w[1:] in self.feats) if w.startswith("!") else (w not in self.feats):
+                self.log.append("fn %s: group skipped in this configuration (when=%s)" % (name, w))
+                return
         if "file" in opt:
             src = Src.get(self.repo, opt["file"])
             ranges = [(-1, len(src.toks))]
@@ -536,8 +542,18 @@ class Expander:
         ret = opt.get("ret")
         sig_pieces = self._sig_pieces(sig, ret)
         pieces.extend(sig_pieces)
+        item_name = name
+        if "as" in opt:
+            # second extraction of the same function under another name (e.g. the body of a function whose
+            # callers use an assumed contract): only the identifier after `fn` changes
+            pieces = self._replace_in_pieces(pieces, norm(lex_frag("fn " + name)), "fn " + opt["as"], 1, "fn %s as=" % name)
+            item_name = opt["as"]
+            self.log.append("fn %s: extracted a second time under the name `%s`" % (name, opt["as"]))
         if "external_body" in flags:
             pieces.insert(0, Piece("ins", "#[verifier::external_body]\n"))
+        if "noisolation" in flags:
+            # verifier-only attribute: loop bodies see the facts established before the loop
+            pieces.insert(0, Piece("ins", "#[verifier::loop_isolation(false)]\n"))
         if opt.get("rlimit"):
             pieces.insert(0, Piece("ins", "#[verifier::rlimit(%s)]\n" % opt["rlimit"]))
         if "nodecreases" in flags:
@@ -549,7 +565,7 @@ class Expander:
         if not has_body:
             pieces.append(Piece("orig", rtok.emit(body)))
             pieces = self.apply_rewrites(pieces)
-            self.emit_item(src, name, "fn", props, pieces)
+            self.emit_item(src, item_name, "fn", props, pieces)
             return
         body_pieces = self._body_pieces(body, loops, anchors, name)
         body_pieces = self._cfg_in_body(body_pieces, name)
@@ -565,7 +581,7 @@ class Expander:
             self.log.append("fn %s: edit `%s` -> `%s`%s" % (name, old, new.replace("\n", " "), " (closure body braced)" if "wrap" in eopts else ""))
         pieces.extend(body_pieces)
         pieces = self.apply_rewrites(pieces)
-        self.emit_item(src, name, "fn", props, pieces,
+        self.emit_item(src, item_name, "fn", props, pieces,
                        {"impl": self.cur_impl[2] if self.cur_impl and "file" not in opt else None,
                         "external_body": "external_body" in flags})
 
